@@ -124,6 +124,42 @@ pub fn j_range(form: usize, y: i32, m: u32, d: u32, h: u32, mi: u32, s: u32, out
     }
 }
 
+/// structured (format, input) pairs: the input is what the real formatter prints for the format (so it matches
+/// token by token), and field-count variants of it; every parse must return
+pub fn j_structured(toks: &[char], seps: &[usize], c: i128, variant: usize, out: &mut Local) {
+    use super::c19::sep_string;
+    let mut fmt = String::new();
+    for (i, t) in toks.iter().enumerate() {
+        fmt.push('%');
+        fmt.push(*t);
+        if i + 1 < toks.len() {
+            fmt.push_str(&sep_string(seps[i % seps.len().max(1)]));
+        }
+    }
+    let e = Epoch::from_duration(crate::oracle::dur::mk(c), TimeScale::UTC);
+    let rendered = guard(|| Format::from_str(&fmt).ok().map(|f| format!("{}", hifitime::efmt::Formatter::new(e, f))));
+    let base = match rendered {
+        Ok(Some(s)) => s,
+        Ok(None) => {
+            out.dc(1);
+            return;
+        }
+        Err(p) => {
+            out.viol("c13.structured", format!("Formatter/panic:{}", p.class()), vec![fmt, c.to_string(), variant.to_string()], "no panic".into(), format!("{} {}", p.loc, p.msg));
+            return;
+        }
+    };
+    let input = match variant {
+        0 => base.clone(),
+        1 => format!("{base} 1"),
+        2 => format!("{base}{}7", sep_string(seps.first().copied().unwrap_or(1)).chars().next().unwrap_or('-')),
+        3 => base.chars().take(base.chars().count().saturating_sub(1)).collect(),
+        4 => base.chars().take(base.chars().count() / 2).collect(),
+        _ => format!(" {base}  "),
+    };
+    j_total2(&fmt, &input, out);
+}
+
 // ---------------------------------------------------------------------------------------------
 // string lattices
 
@@ -299,7 +335,7 @@ pub fn corpus(p: usize, double: bool, double_max_len: usize) -> Vec<String> {
 
 pub fn run(rep: &mut Report) {
     let q = rep.quick();
-    rep.rule = "per parser: every string of up to L symbols over an alphabet built from the characters the parser compares against plus 2-, 3- and 4-byte characters and non-ASCII digits (L = 4 quick, 5 thorough); a grammar-derived seed corpus closed under all single-point mutations (delete, truncate, substitute, insert over the alphabet), under double-point mutations (quick: seeds <= 16 chars; thorough: <= 40), and with numeric extremes spliced into every numeric field; for the two-argument entry points the product of mutated formats and mutated inputs. Second clause: well-formed text from the full product of boundary field values must be rejected when a field is out of range. Oracle: the call returns Ok or Err (panics are caught under overflow checks; a watchdog bounds the time). Non-trivial = non-ASCII or longer than 6 bytes.".into();
+    rep.rule = "per parser: every string of up to L symbols over an alphabet built from the characters the parser compares against plus 2-, 3- and 4-byte characters and non-ASCII digits (L = 4 quick, 5 thorough); a grammar-derived seed corpus closed under all single-point mutations (delete, truncate, substitute, insert over the alphabet), under double-point mutations (quick: seeds <= 16 chars; thorough: <= 40), and with numeric extremes spliced into every numeric field; for the two-argument entry points the product of mutated formats and mutated inputs, and structured pairs: every format of 1-2 tokens x 57 separator strings, every 3-token format and formats of 14..17 tokens, each against the real formatter's own output and five field-count variants of it (one field more, one character less, half, padded). Second clause: well-formed text from the full product of boundary field values must be rejected when a field is out of range. Oracle: the call returns Ok or Err (panics are caught under overflow checks; a watchdog bounds the time). Non-trivial = non-ASCII or longer than 6 bytes.".into();
     rep.assumptions = vec!["arbitrary UTF-8 is approximated by the alphabets and mutation operators described; see DESIGN.md §8".into()];
     let l = if q { 4 } else { 5 };
     rep.bound("max_len_all_strings", l as u64);
@@ -364,6 +400,39 @@ pub fn run(rep: &mut Report) {
     rep.bound("format_input_pairs", pairs.len() as u64);
     let pr = &pairs;
     sweep_named(rep, "c13.total2", pairs.len() as u64, |i, out| j_total2(&pr[i as usize].0, &pr[i as usize].1, out), |i| vec![pr[i as usize].0.clone(), pr[i as usize].1.clone()]);
+    // structured pairs: all formats of 1-2 tokens x 57 separator strings, 3-token formats, and long formats of
+    // 14..17 tokens, each against the formatter's own output and five field-count variants of it
+    {
+        use super::c19::TOKENS;
+        let cs: [i128; 3] = [3_155_716_800_000_000_037, 1_423_308_153_500_000_000, 3_692_217_599_999_999_999];
+        crate::engine::sweep(rep, "c13.structured[len1-2]", (17 + 17 * 17 * 57) * 3 * 6, |i, out| {
+            let v = (i % 6) as usize;
+            let c = cs[((i / 6) % 3) as usize];
+            let j = i / 18;
+            if j < 17 {
+                j_structured(&[TOKENS[j as usize]], &[], c, v, out)
+            } else {
+                let k = j - 17;
+                j_structured(&[TOKENS[(k / (17 * 57)) as usize], TOKENS[((k / 57) % 17) as usize]], &[(k % 57) as usize], c, v, out)
+            }
+        });
+        crate::engine::sweep(rep, "c13.structured[len3]", 17 * 17 * 17 * 3 * 6, |i, out| {
+            let v = (i % 6) as usize;
+            let s = [1usize, 2, 9][((i / 6) % 3) as usize];
+            let t = i / 18;
+            j_structured(&[TOKENS[(t / 289) as usize], TOKENS[((t / 17) % 17) as usize], TOKENS[(t % 17) as usize]], &[s, 2], cs[(t % 3) as usize], v, out)
+        });
+        // long formats: numeric tokens repeated to 14..17 tokens, all rotations, several separators
+        let cyc = ['Y', 'm', 'd', 'H', 'M', 'S', 'f', 'j'];
+        crate::engine::sweep(rep, "c13.structured[len14-17]", 4 * 8 * 4 * 6, |i, out| {
+            let v = (i % 6) as usize;
+            let s = [1usize, 2, 3, 9][((i / 6) % 4) as usize];
+            let rot = ((i / 24) % 8) as usize;
+            let len = 14 + (i / 192) as usize;
+            let toks: Vec<char> = (0..len).map(|k| cyc[(k + rot) % 8]).collect();
+            j_structured(&toks, &[s], cs[rot % 3], v, out)
+        });
+    }
     // out-of-range fields
     let years = [1i32, 1900, 2000, 2023, 2024, 9999];
     let months = [0u32, 1, 2, 4, 6, 12, 13, 99];
